@@ -1,4 +1,5 @@
 import Woodpile.Driver.Util
+import Woodpile.Driver.Abt
 import Woodpile.Driver.SortedDeque
 import Woodpile.Driver.SlidingDeque
 import Woodpile.Driver.ReadN
@@ -20,6 +21,7 @@ def families : List (String × Family) :=
   ++ [("hcobs_dec", HcobsFam.decFamily)]
   ++ [("sdeque", SlidingDequeFam.family)]
   ++ [("sorted", SortedDequeFam.family)]
+  ++ [("abt", AbtFam.family)]
 
 def main (args : List String) : IO UInt32 := do
   match args with
